@@ -20,6 +20,9 @@ def budget(tier):
 
 def gen_cases(rng, n, tier):
     cfgs = [c for c in B.all_cfgs('blog') + B.all_cfgs('inh')[::2] if not c['null_delete']]
+    # flat shapes: Transaction.changed_entities is read for every record at the end of the run (a polymorphic query
+    # of a hierarchy returns subclass versions under the parent class too: not compared there)
+    cfgs = [dict(c, read_changed_entities=(c['shape'] != 'inh')) for c in cfgs]
     return B.gen_cases_default(rng, n, tier, cfgs=cfgs)
 
 
